@@ -133,6 +133,7 @@ def loops_push_every_iteration(fn, accept=None):
     out = []
     for src, h in cfg.back_edges():
         body = cfg.natural_loop(src, h)
+        # note: one entry per back edge - a `continue` path is its own back edge and must accumulate as well
         if accept is not None:
             acc = [b for b in body if b in ev.sites and accept(ev.sites[b])]
         else:
@@ -533,3 +534,79 @@ def check_order_insensitive(ctx, rule, P, fn_keys):
             continue
         bad = order_sensitive_comparisons(P, f)
         ctx.ob(rule, fk, not bad, "share-set validation in %s does not compare identifiers of list neighbours by order%s" % (fk, "" if not bad else ": " + "; ".join(d for _, d in bad[:2]) + " - a valid share set handed over in another order is refused"), where=where(bad[0][0]) if bad else where(f))
+
+
+# ---------------------------------------------------------------------------
+# "one pairing input per list entry", however it is written
+
+
+def _has_h2p(t):
+    return any(x.op == "call" and B.cname(x) == "HashToPoint::hash_to_point" for x in subterms(t))
+
+
+def entry_builders(P, fn):
+    """Where fn builds its per-entry pairing input (hash_to_point(msg, dst), pk): either a `push` in a loop over the
+    list, or the closure of a `map(..)` whose results are collected.  Each builder: dict(mode, fn, bb, value, lits,
+    source, every) - `value` the pair term, `lits` the conditions under which it is built, `source` what is iterated,
+    `every` whether every element yields its pair or an error."""
+    from . import guardrules as R
+
+    ev = evaluate(fn)
+    cfg = fn.cfg
+    out = []
+    # (a) push in a loop (a loop = all back edges into one header: `continue` adds a second one)
+    headers = {}
+    for src_b, h in cfg.back_edges():
+        headers.setdefault(h, []).append(src_b)
+    for h, latches in sorted(headers.items()):
+        body = set()
+        for src_b in latches:
+            body |= set(cfg.natural_loop(src_b, h))
+        pushes = [b for b in sorted(body) if b in ev.sites and ev.sites[b].callee[0] == "Vec::<T, A>::push" and _has_h2p(ev.sites[b].args[1])]
+        for b in pushes:
+            srcs = [s for bb, s in R.loop_sources(fn) if bb in body]
+            out.append({"mode": "push-loop", "fn": fn, "bb": b, "value": strip_sites(ev.sites[b].args[1]), "lits": G.path_literals(ev, b, P), "source": srcs[0] if srcs else None, "every": all(cfg.dominates(b, src_b) for src_b in latches), "header": h})
+    # (b) map(closure) + collect
+    for b, s in sorted(ev.sites.items()):
+        if s.callee[0] != "Iterator::map" or len(s.args) != 2:
+            continue
+        clo = B.peel(s.args[1])
+        if not (clo.op == "agg" and clo.a[0][0] == "closure"):
+            continue
+        g = P.fns.get(clo.a[0][1])
+        if g is None or g.cfg.back_edges():
+            continue
+        gev = evaluate(g)
+        rty = g.locals[0].get("ty") or ""
+        if "Result<" in rty:
+            exits = R.ok_exits(P, g, gev)
+            vals = []
+            for gb, lits in exits:
+                v = _R().ok_value(gev.fn, gev, gb) if gb in gev.exit_state else None
+                if v is not None and v.op == "agg" and v.a[1]:
+                    vals.append((gb, strip_sites(v.a[1][0]), lits))
+        else:
+            vals = [(rb, strip_sites(gev.ret_at[rb]), G.path_literals(gev, rb, P)) for rb in gev.ret_at]
+        vals = [v for v in vals if _has_h2p(v[1])]
+        if not vals:
+            continue
+        collected = any(x.op == "call" and B.cname(x) == "Iterator::collect" and any(y.op == "call" and y.a[0] == s.callee and strip_sites(y) == strip_sites(s.value) for y in subterms(x)) for bb2, s2 in ev.sites.items() for x in [strip_sites(s2.value)] if s2.callee[0] == "Iterator::collect")
+        # captured variables: field i of the closure environment is the i-th captured operand of the aggregate
+        from ..core.terms import subst
+
+        envp = T("param", 1, gev.pname(1))
+        cap = {}
+        for i, c in enumerate(clo.a[1]):
+            cs = strip_sites(c)
+            for base in (envp, T("deref", envp)):
+                cap[T("field", base, str(i))] = cs
+        vals = [(gb, strip_sites(subst(v, cap)), lits) for gb, v, lits in vals]
+        for gb, v, lits in vals:
+            out.append({"mode": "map-closure", "fn": g, "bb": gb, "value": v, "lits": lits, "source": strip_sites(s.args[0]), "every": collected and len(vals) == 1, "header": None})
+    return out
+
+
+def _R():
+    from . import guardrules as R
+
+    return R
